@@ -379,6 +379,12 @@ func (e *Enc) applyDeferred(d *ssa.Defer, st *State, dominates bool) {
 		return
 	}
 	ct := e.resolveCall(common)
+	if ct.static != nil && callsRecover(ct.static) {
+		// the recover idiom: `defer func() { if r := recover(); r != nil { ... } }()` does nothing on
+		// a normal return (assumption, listed); panicking paths are not covered by postconditions
+		e.assumed["deferred recover() handler "+ct.key+" has no effect on normal returns"] = true
+		return
+	}
 	e.lastPreAlloc = st.get(allocHeap)
 	oldSt := st.clone()
 	if ct.contract == nil || !ct.contract.Pure {
@@ -741,4 +747,17 @@ func splitConj(e Expr) []Expr {
 		return append(splitConj(b.X), splitConj(b.Y)...)
 	}
 	return []Expr{e}
+}
+
+func callsRecover(fn *ssa.Function) bool {
+	for _, b := range fn.Blocks {
+		for _, in := range b.Instrs {
+			if c, ok := in.(*ssa.Call); ok {
+				if bi, ok := c.Call.Value.(*ssa.Builtin); ok && bi.Name() == "recover" {
+					return true
+				}
+			}
+		}
+	}
+	return false
 }
